@@ -14,7 +14,7 @@ KIND_OBJ = {'module': 'm', 'class': 'm.C', 'function': 'm.f', 'method': 'm.C.met
             'property': 'm.C.prop'}
 OID = {'A': 1, 'B': 2, 'P': 3}
 KEY_OF = {v: k for k, v in OID.items()}
-DOC_A = 'docA <&> \u00e9\n  second line'
+DOC_A = ' docA <&> \u00e9\n  second line\n'
 DOC_B = 'docB'
 DOC_P = 'docP of the parent'
 PT_WARNING = 7777           # canonical id of "a warning appended by processtypes"
@@ -617,7 +617,7 @@ class Check(PropertyCheck):
         'a parser that raises ParseError has appended an error to the list first (holds for epytext by C08_epytext_fatal_raises; '
         'C08_reported_parse_error_refuted shows it is needed)',
         'to_node raises nothing but NotImplementedError inside get_toc (C08_toc_total_refuted shows it is needed)',
-        'the object renders its own docstring (not a split @ivar field of its parent) for C08_isolation (C08_isolation_split_field_refuted)',
+        'the object renders its own docstring (not a split @ivar field of its parent) for C08_isolation_partial (C08_isolation_split_field_refuted)',
     ]
     manifest = {
         'text': ('Theorems over Model/DocFlow.v (control flow of parse_docstring, reportErrors, ensure_parsed_docstring, safe_to_stan, '
@@ -625,7 +625,7 @@ class Check(PropertyCheck):
                  'for EVERY behaviour of the parser/renderer oracles: a parser or type post-processor that raises (ParseError or any '
                  'Exception) yields exactly plaintext(docstring) as body (C08_fallback_is_whole_text), the object lands in '
                  'parse_errors[docstring] with at least one report, once (C08_reported_against_object), results and new reports for any '
-                 'other object are unchanged (C08_isolation, C08_isolation_frame), recovered errors are reported and the parsed form kept '
+                 'other object are unchanged (C08_isolation_partial, C08_isolation_frame_partial, C08_isolation_other_object_partial: objects that render their own docstring), recovered errors are reported and the parsed form kept '
                  '(C08_rst_recovered_errors_reported), renderer failures fall back to the plain text / BROKEN '
                  '(C08_to_stan_failure_fallback, C08_summary_fallback), the first fatal epytext error is raised '
                  '(C08_epytext_fatal_raises); exception skeletons regenerated from /repo show no exception within the oracle '
@@ -800,6 +800,19 @@ class Check(PropertyCheck):
         return out
 
     # ------------------------------------------------------------------ check
+    def keep(self, out: List[Violation], v: Violation, cls: str) -> None:
+        """Record an oracle violation; instances of known findings and new violations are capped separately so that a
+        known finding can never crowd out a new violation of the same class."""
+        if not hasattr(self, '_known'):
+            self._known = lib.load_known_findings(self.id)[0]
+            self._kept: Dict[Tuple[str, bool], int] = {}
+        isknown = self.classify_known(v, self._known) is not None
+        n = self._kept.get((cls, isknown), 0)
+        cap = int(os.environ.get('C08_MAXV', '2' if isknown else '4'))
+        if n < cap:
+            self._kept[(cls, isknown)] = n + 1
+            out.append(v)
+
     def run_inject(self, cases: List[dict], out: List[Violation], label: str) -> None:
         impl = lib.run_impl_worker(WORKER, cases, jobs=16, timeout=3000)
         mod = self.model('docflow', [to_model(c) for c in cases])
@@ -820,8 +833,7 @@ class Check(PropertyCheck):
             o = oracle_inject(c, ci)
             if o:
                 self.count('oracle_inject_' + o[0])
-                if len([v for v in out if v.kind == 'oracle' and v.what.startswith('[%s]' % o[0])]) < int(os.environ.get('C08_MAXV', '3')):
-                    out.append(Violation('oracle', '[%s] %s' % o, case=c, observed=ci))
+                self.keep(out, Violation('oracle', '[%s] %s' % o, case=c, observed=ci), o[0])
         self.evaluations += len(cases)
 
     def run_real(self, cases: List[dict], out: List[Violation]) -> None:
@@ -844,10 +856,9 @@ class Check(PropertyCheck):
             o = oracle_real(c, r)
             if o:
                 self.count('oracle_real_' + o[0].split(':')[0])
-                if len([v for v in out if v.kind == 'oracle' and v.what.startswith('[%s]' % o[0])]) < int(os.environ.get('C08_MAXV', '3')):
-                    out.append(Violation('oracle', '[%s] %s' % o, case=c, observed={k: r.get(k) for k in
-                                         ('raised', 'where', 'stage', 'body_kind', 'in_parse_errors', 'reports_obj', 'to_node_failed',
-                                          'parser_raised', 'hang', 'body_html', 'other', 'other_ref', 'parse_errors')}))
+                self.keep(out, Violation('oracle', '[%s] %s' % o, case=c, observed={k: r.get(k) for k in
+                          ('raised', 'where', 'stage', 'body_kind', 'in_parse_errors', 'reports_obj', 'to_node_failed',
+                           'parser_raised', 'hang', 'body_html', 'other', 'other_ref', 'parse_errors')}), o[0])
         self.evaluations += len(cases)
         self.stats['real_max_wall_s'] = max([r.get('wall_s', 0) for r in impl] or [0])
 
@@ -926,16 +937,26 @@ class Check(PropertyCheck):
         self.run_real(real, out)
         for c in (ex[37], co[5], rn[3], real[400]):
             self.sample({k: v for k, v in c.items() if k != 'ops'} if c['k'] == 'inject' else c)
+        # the known findings are always present on the unchanged tree, so lib.run_check never calls search() for us:
+        # when model and code disagree and no NEW oracle failure is at hand, widen the streams here
+        known = lib.load_known_findings(self.id)[0]
+        corr = [v for v in out if v.kind == 'correspondence']
+        fresh = [v for v in out if v.kind == 'oracle' and self.classify_known(v, known) is None]
+        if corr and not fresh:
+            out.extend(self.search(corr))
         return out
 
     def search(self, broken: List[Violation]) -> List[Violation]:
         out: List[Violation] = []
         # the oracle already ran on every enumerated case; widen the real-parser and random streams
+        known = lib.load_known_findings(self.id)[0]
         self.rng.seed(self.seed + 1)
         self.run_inject(self.random_cases(6000), out, 'search')
-        if not [v for v in out if v.kind == 'oracle']:
+        fresh = [v for v in out if v.kind == 'oracle' and self.classify_known(v, known) is None]
+        if not fresh:
             self.run_real(self.real_cases(3000), out)
-        return [v for v in out if v.kind == 'oracle'][:3]
+            fresh = [v for v in out if v.kind == 'oracle' and self.classify_known(v, known) is None]
+        return fresh[:3]
 
     def classify_known(self, v: Violation, known: List[dict]) -> Optional[dict]:
         if v.kind != 'oracle':
@@ -974,6 +995,7 @@ class Check(PropertyCheck):
             o = oracle_inject(case, ci)
             print('case    :', json.dumps(case)[:3000])
             print('observed:', json.dumps(ci)[:4000])
+            cm = ci
             try:
                 b, _ = lib.build_model('C08_docflow', 'XDocFlow.v')
                 cm = canon_model(case, dec(lib.run_model(b, [to_model(case)])[0]))
